@@ -40,7 +40,9 @@ Definition key_proper_prefix (a b : key) : bool := key_prefix a b && negb (key_e
 Inductive sop :=
 | SAssign (k : key) (v : value)     (* k <> [] *)
 | SRemove (k : key)                 (* k and everything beneath it *)
-| SClear (k : key).                 (* everything strictly beneath k (k = []: the whole store) *)
+| SClear (k : key)                  (* everything strictly beneath k (k = []: the whole store) *)
+| STouch (k : key)                  (* k and its prefixes are made present (values kept) *)
+| SUnset (k : key).                 (* the value of k is dropped, k stays present *)
 
 (* reading a key after a history (most recent operation first) *)
 Fixpoint slook (h : list sop) (k : key) : entry :=
@@ -53,6 +55,10 @@ Fixpoint slook (h : list sop) (k : key) : entry :=
     else slook h' k
   | SRemove q :: h' => if key_prefix q k then Absent else slook h' k
   | SClear q :: h' => if key_proper_prefix q k then Absent else slook h' k
+  | STouch q :: h' =>
+    if key_prefix k q then match slook h' k with Absent => Exists None | e => e end else slook h' k
+  | SUnset q :: h' =>
+    if key_eqb k q then match slook h' k with Absent => Absent | _ => Exists None end else slook h' k
   end.
 
 (* the root (empty key) is no entry: it is reported present, without value *)
@@ -125,6 +131,105 @@ Fixpoint srun (h : list sop) (ops : list hop) (macc : list cout) : list cout * l
     (out :: outs, hf)
   end.
 
+(* ---- the caller-level interface (mpt_config_set / get / getp, config::set / get / del,
+   conversion of a view to its node, listing through the query handler) ---- *)
+
+(* key named by a C string cut at the end character [en] (mpt_config_set(..., sep, end)) *)
+Definition str_key_end (s : option (list byte)) (sep en : byte) : key :=
+  match s with None => [] | Some b => split sep (upto en (upto 0%N b)) end.
+
+(* key named by the first [len] bytes of a C string (config::del(p, sep, len)) *)
+Definition del_key (s : option (list byte)) (sep : byte) (len : option nat) : key :=
+  match s with
+  | None => []
+  | Some b => match len with
+              | None => split sep (upto 0%N b)
+              | Some n => split sep (upto 0%N (firstn n (b ++ [0%N])))
+              end
+  end.
+
+(* what a query through a view with base key [b] finds at [k] *)
+Definition squery (h : list sop) (b k : key) : entry :=
+  match slookup h b with Absent => Absent | _ => slookup h (b ++ k) end.
+
+Inductive whop :=
+| HBase (o : hop)
+| HSet (b k : key) (v : option value)      (* no value = remove *)
+| HGetV (b k : key) (ty : gty)
+| HTouch (b : key)
+| HUnsetBase (b : key)
+| HList (b k : key).
+
+Definition wsstep (h : list sop) (o : whop) (acc : bool) : list sop * wout :=
+  match o with
+  | HBase o => let '(h', out) := sstep h o acc in (h', WOut out)
+  | HSet b k (Some v) => let '(h', out) := sstep h (HAssign b k v) acc in (h', WOut out)
+  | HSet b k None => let '(h', out) := sstep h (HRemove b k) acc in (h', WOut out)
+  | HGetV b k ty => (h, WVal (get_view false ty (squery h b k)))
+  | HTouch b => match b with [] => (h, WNodeAt None) | _ => (STouch b :: h, WNodeAt (Some [])) end
+  | HUnsetBase b =>
+    match b with
+    | [] => (h, WOut (OutRc RcRefused))
+    | _ => match slook h b with
+           | Absent => (h, WOut (OutRc RcNotFound))
+           | _ => (SUnset b :: h, WOut (OutRc RcCleared))
+           end
+    end
+  | HList b k => (h, WOut (OutEntry (squery h b k)))
+  end.
+
+Definition waccepted (o : wout) : bool :=
+  match o with WOut c => accepted c | _ => true end.
+
+Fixpoint wsrun (h : list sop) (ops : list whop) (macc : list wout) : list wout * list sop :=
+  match ops with
+  | [] => ([], h)
+  | o :: r =>
+    let a := match macc with x :: _ => waccepted x | [] => true end in
+    let '(h', out) := wsstep h o a in
+    let '(outs, hf) := wsrun h' r (tl macc) in
+    (out :: outs, hf)
+  end.
+
+(* the private C++ configuration: no views; the empty path is no entry *)
+Inductive xhop :=
+| XBase (o : hop)
+| XHSet (k : key) (v : option value)
+| XHGetV (k : key) (ty : gty)
+| XHUnset (k : key)
+| XHList (k : option key).                 (* None: the top-level listing *)
+
+Definition xsstep (h : list sop) (o : xhop) (acc : bool) : list sop * xout :=
+  match o with
+  | XBase o => let '(h', out) := sstep h o acc in (h', XOut out)
+  | XHSet k (Some v) => let '(h', out) := sstep h (HAssign [] k v) acc in (h', XOut out)
+  | XHSet k None => let '(h', out) := sstep h (HRemove [] k) acc in (h', XOut out)
+  | XHGetV k ty => (h, XVal (get_view true ty (slookup h k)))
+  | XHUnset k =>
+    match k with
+    | [] => (h, XOut (OutRc RcRefused))
+    | _ => match slook h k with
+           | Absent => (h, XOut (OutRc RcOk))
+           | _ => (SUnset k :: h, XOut (OutRc RcOk))
+           end
+    end
+  | XHList None => (h, XOut (OutEntry (Exists None)))
+  | XHList (Some k) => (h, XOut (OutEntry (slookup h k)))
+  end.
+
+Definition xaccepted (o : xout) : bool :=
+  match o with XOut c => accepted c | _ => true end.
+
+Fixpoint xsrun (h : list sop) (ops : list xhop) (macc : list xout) : list xout * list sop :=
+  match ops with
+  | [] => ([], h)
+  | o :: r =>
+    let a := match macc with x :: _ => xaccepted x | [] => true end in
+    let '(h', out) := xsstep h o a in
+    let '(outs, hf) := xsrun h' r (tl macc) in
+    (out :: outs, hf)
+  end.
+
 (* ------------------------------------------------------------------------
    Paths, abstractly: a list of elements plus the not yet committed "post"
    bytes behind it.  This is what walking the path element by element has to
@@ -172,4 +277,6 @@ Definition astep (a : apath) (o : pop) : apath * pret :=
         else (keep (aelems a ++ [e]) (skipn (n + 1) (apost a)), RNum 0)
   | PPost d => (mkap (aelems a) (apost a ++ d) (abin a) (asep a) (aassign a) (match d with [] => anull a | _ => false end), RNum 0)
   | PBin => (mkap (aelems a) (apost a) true (asep a) (aassign a) (anull a), RNum 0)
+  | PClear _ => (keep (aelems a) [], RNum 0)
+  | PCopy => (a, RNum 0)
   end.
